@@ -984,8 +984,9 @@ def discharge(ctx: interp.Ctx, contract: Contract, res: Result, numenv: NumEnv, 
     fallback_budget = [FALLBACK_BUDGET]
     for ob in ctx.obligations:
         side = ob.get("side")
-        closed = ob["kind"] == "bool" and ob["goal"].is_const()  # a precondition without free symbols (e.g. about a static
-        # argument such as which solver is passed) is not a condition on the inputs: it is decided here, never inherited
+        # a precondition without free symbols, or one about a static argument (clause name "static:...", e.g. which
+        # solver is passed), is not a condition on the inputs: it is decided here, never inherited
+        closed = (ob["kind"] == "bool" and ob["goal"].is_const()) or ".requires.static:" in ob["name"]
         if side in ("kernel-precondition", "callee-precondition") and any(s in ob["name"] for s in contract.inherits) and not closed:
             res.inherited.append(ob["name"])
             continue
